@@ -1,13 +1,16 @@
 (* C08 - The table manager's log records exactly what was played (every schedule).
    Only statements, each closed by [exact]; proofs are in the files imported below. *)
-From BE Require Import Model.Session Model.SessionTie Spec.SessionSpec Proofs.Kahn Proofs.Session Proofs.SessionExamples Model.Conform Model.Json Proofs.RecordSpec.
+From BE Require Import Model.Session Model.SessionTie Spec.SessionSpec Proofs.Kahn Proofs.Session Proofs.SessionExamples Model.Conform Model.Json Proofs.RecordSpec Proofs.SessionPassOut Proofs.Wire Proofs.SessionConform Proofs.SessionConformLog Gen.JsonFns Proofs.JsonGen.
 From BE Require Import Gen.Skeleton Proofs.SkeletonPin.
 From Coq Require Import ZArith.
 Local Open Scope nat_scope.
 Local Open Scope list_scope.
-(* FULL STATEMENT (not proved in this form): for every board list and conforming script the logged records equal
-   record_spec of Spec/SessionSpec.v.  Proved: schedule independence for every input; the equality with the sequential
-   reference is evaluated in Coq (vm_compute) for each session exercised by the check and for the examples below. *)
+(* FULL STATEMENT, PROVED (C08_conforming_session_log_is_the_reference / _every_schedule, Proofs/SessionConformLog.v): for
+   every non-empty board list and every conforming behaviour of the four clients, under EVERY schedule the log is
+   open ; one record per board, in order ; close, and each record is, as a JSON value, record_spec of the sequential reference
+   (the boards and what the players said, by the Laws / play reference / Law 77 formulas of Spec/).  Clients connect in the
+   order N, E, S, W in these theorems; for other arrival orders and extra requests the schedule-independence theorem plus the
+   per-session evaluation decide (suffix _partial). *)
 (* every channel of the session network has one reader and one writer, for every input and every message that might arrive *)
 Theorem C08_ownership :
   forall x, wf_state msg (rd x) (wr x) cw (init_state x).
@@ -61,6 +64,50 @@ Theorem C08_log_wellformed :
   forall x l s, srun l (init_state x) = Some s -> log_prefix (log_events (nconn x) s).
 Proof. exact log_always_wellformed. Qed.
 Print Assumptions C08_log_wellformed.
+
+(* FULL, symbolic and unbounded, at the level of the thread network: a run of every conforming session ends with every process returned and the log open ; records ; close, where the record of board j is the record the model builds from board j and the four scripts *)
+Theorem C08_conforming_session_log :
+  forall boards ns ew scripts,
+  boards <> [] -> no_quote ns -> no_quote ew -> conforming boards scripts = true ->
+  exists l f, srun l (init_state (conf_session boards ns ew scripts)) = Some f /\ Kahn.all_doneb msg f = true /\
+    exists recs, log_events 4 f = LOpen :: map LRec recs ++ [LClose] /\
+      map Some recs = map (fun '(j, b) => model_record (NM ns ew) b (fun p => nth_script (scripts p) j))
+                          (combine (seq 0 (length boards)) boards).
+Proof. exact conforming_session_log. Qed.
+Print Assumptions C08_conforming_session_log.
+
+(* and, as JSON values, the records are exactly the sequential reference record_spec of Spec/SessionSpec.v *)
+Theorem C08_conforming_session_log_is_the_reference :
+  forall boards ns ew scripts,
+  boards <> [] -> no_quote ns -> no_quote ew -> conforming boards scripts = true ->
+  exists l f, srun l (init_state (conf_session boards ns ew scripts)) = Some f /\ Kahn.all_doneb msg f = true /\
+    exists recs, log_events 4 f = LOpen :: map LRec recs ++ [LClose] /\
+      map record_json recs =
+      map (fun '(j, b) => Spec.SessionSpec.record_spec ns ew (Proofs.RecordSpec.sboard_of b)
+                            (Spec.SessionSpec.play_board (Proofs.RecordSpec.sboard_of b)
+                               (fun p => Proofs.RecordSpec.said_of (nth_script (scripts p) j))))
+          (combine (seq 0 (length boards)) boards).
+Proof. exact conforming_session_log_is_spec. Qed.
+Print Assumptions C08_conforming_session_log_is_the_reference.
+
+(* EVERY maximal run of the session ends in that same state - the log does not depend on thread timing *)
+Theorem C08_conforming_session_log_every_schedule :
+  forall boards ns ew scripts,
+  boards <> [] -> no_quote ns -> no_quote ew -> conforming boards scripts = true ->
+  exists f n, Kahn.all_doneb msg f = true /\
+    (exists recs, log_events 4 f = LOpen :: map LRec recs ++ [LClose] /\
+       map Some recs = map (fun '(j, b) => model_record (NM ns ew) b (fun p => nth_script (scripts p) j))
+                           (combine (seq 0 (length boards)) boards)) /\
+    forall l' s', srun l' (init_state (conf_session boards ns ew scripts)) = Some s' ->
+      length l' <= n /\ (sfinal s' -> s' = f).
+Proof. exact conforming_session_log_every_schedule. Qed.
+Print Assumptions C08_conforming_session_log_every_schedule.
+
+(* the JSON value of a record as built by JsonLogWriter.write REGENERATED from writer.py on every run is record_json of the model *)
+Theorem C08_generated_record_writer_is_hand_model :
+  forall r : logrec, g_record_json r = record_json r.
+Proof. exact g_record_json_eq. Qed.
+Print Assumptions C08_generated_record_writer_is_hand_model.
 
 (* FULL, for every board and every conforming script (sequential, no threads): the record the table manager model builds with the MODEL functions (take_bid / contract_of, play_by / tricks, calc_score) is, as a JSON value, exactly record_spec of the sequential reference built with the SPEC functions (Laws, play reference, Law 77 formulas) *)
 Theorem C08_model_record_is_the_reference_record :
